@@ -1,8 +1,8 @@
 #!/verif/.venv/bin/python
 # Replay of a solver counterexample against the unmodified code (no shims).
-# property=C07 kernel=seq label=k2:not_before_last_shift_ref
+# property=C07 kernel=qubitref label=k1:shift_time
 import sys
 sys.path[:0] = ["/repo/pulser-core", "/repo/pulser-simulation", "/verif"]
 from symx.replay import replay
-sys.exit(replay(check='checks.c07', kernel='seq', shape={'device': 'mock', 'channels': [('a', 'raman_global', None), ('b', 'raman_local', 'q2'), ('r', 'rydberg_global', None)], 'program': [['add', 'b', 'min-delay', 32, False], ['shift', ['q0', 'q1'], 'digital'], ['shift', ['q2'], 'digital'], ['add', 'a', 'no-delay', 16, True]]},
-                assignment={'ph0': -1440, 'phi1': 1081, 'phi2': 1, 'ph3': -1440, 'post3': 1}, label='k2:not_before_last_shift_ref'))
+sys.exit(replay(check='checks.c07', kernel='qubitref', shape={'ops': ['use', 'inc', 'use', 'inc']},
+                assignment={'t0': 1, 'phi1': 0, 't2': 0, 'phi3': 1}, label='k1:shift_time'))
